@@ -9,7 +9,7 @@ pub fn run(suite: &str, rng: &mut Rng, ctx: &mut Ctx) {
     match suite {
         "mal" => mal(rng, ctx), "prefix" => prefix(rng, ctx), "irr" => irr(rng, ctx), "inc" => inc(rng, ctx), "frag" => frag(rng, ctx),
         "newer" => newer(rng, ctx), "maxver" => maxver(rng, ctx), "norm" => norm(rng, ctx), "pread" => pread(rng, ctx), "pprefix" => pprefix(rng, ctx),
-        "consts" => consts(ctx), "vgrid" => vgrid(rng, ctx), "fixtures" => fixtures(ctx), "pmodel" => pmodel(rng, ctx),
+        "consts" => consts(ctx), "vgrid" => vgrid(rng, ctx), "tarfmt" => tarfmt(rng, ctx), "fixtures" => fixtures(ctx), "pmodel" => pmodel(rng, ctx),
         _ => { eprintln!("unknown suite {suite}"); std::process::exit(2); }
     }
 }
@@ -552,6 +552,52 @@ fn norm(rng: &mut Rng, ctx: &mut Ctx) {
 
 fn tar_entries(a: &[u8]) -> Vec<(String, Vec<u8>)> { let mut out = vec![]; for e in tar::Archive::new(Cursor::new(a)).entries().unwrap() { let mut e = e.unwrap(); let name = e.path().unwrap().to_string_lossy().to_string(); let mut c = vec![]; e.read_to_end(&mut c).unwrap(); out.push((name, c)); } out }
 fn tar_build(es: &[(String, Vec<u8>)]) -> Vec<u8> { let mut b = tar::Builder::new(vec![]); for (n, c) in es { let mut h = tar::Header::new_gnu(); h.set_size(c.len() as u64); h.set_path(n).unwrap(); h.set_mode(0o644); h.set_cksum(); b.append(&h, &c[..]).unwrap(); } b.into_inner().unwrap() }
+
+/// C18 at byte level: the written archive walked by hand (not with the `tar` crate) — 512-byte blocks, header name / octal size /
+/// checksum, zero padding, two zero blocks at the end — and handed to the byte-level tar model (`tarchk`), which must list it and
+/// rebuild it byte for byte.  Entry lengths are steered onto multiples of 512 through the metadata.
+fn tarfmt(rng: &mut Rng, ctx: &mut Ctx) {
+    let go = GenOpts { max_frames: 3, newer: false, force: None };
+    for k in 0..ctx.n {
+        let (mut r, tags) = loop { let kk = k + (rng.next() % 3) as usize * 1000; let (r, t) = gen_replay(rng, kk, &go); if !slots_of(&r.start_block).is_empty() && r.v <= MAXV { break (r, t); } };
+        let target = [512usize, 1024, 511, 513, 1536, 0][k % 6];
+        if target > 0 {
+            // metadata {"k0":"xxx..","k1":..}: JSON length = 2 + sum(len(key)+len(val)+6) - 1; pick string lengths to hit the target
+            let mut best = None;
+            for nkeys in 1..=8usize { let fixed = 1 + nkeys * 8; if target < fixed + nkeys - 1 { continue; } let body = target - fixed; if body > nkeys * 255 { continue; } best = Some((nkeys, body)); break; }
+            if let Some((nkeys, body)) = best { let mut m = vec![]; let mut left = body; for i in 0..nkeys { let l = left.min(255).min(if i + 1 == nkeys { left } else { left.saturating_sub(nkeys - 1 - i).min(255) }); left -= l; m.extend(b"U\x02"); m.extend(format!("k{}", i).as_bytes()); m.extend(b"SU"); m.push(l as u8); m.extend(std::iter::repeat(b'x').take(l)); } r.metadata = Some(m); }
+        }
+        let b = encode(&r);
+        let a = match std::panic::catch_unwind(|| to_slpp(&b, [None, Some(arrow2::io::ipc::write::Compression::LZ4)][k % 2], k % 3 == 0)) { Ok(Ok(a)) => a, _ => continue };
+        if a.len() > 300_000 { continue; }
+        let mut c = Case::new(format!("tarchk {}", hex(&a)), String::new()); c.tags = tags;
+        // hand walk
+        let mut names: Vec<String> = vec![]; let mut pos = 0usize; let mut problem: Option<String> = None; let mut md_len = 0usize;
+        if a.len() % 512 != 0 { problem = Some(format!("archive length {} is not a multiple of 512", a.len())); }
+        while problem.is_none() && pos + 512 <= a.len() {
+            let h = &a[pos..pos + 512];
+            if h.iter().all(|x| *x == 0) { break; }
+            let name: Vec<u8> = h[..100].iter().cloned().take_while(|x| *x != 0).collect();
+            let size = h[124..135].iter().fold(Some(0usize), |acc, d| acc.and_then(|v| if (b'0'..=b'7').contains(d) { Some(v * 8 + (*d - b'0') as usize) } else { None }));
+            let ck = h[148..155].iter().fold(Some(0usize), |acc, d| acc.and_then(|v| if (b'0'..=b'7').contains(d) { Some(v * 8 + (*d - b'0') as usize) } else { None }));
+            let sum: usize = h.iter().enumerate().map(|(i, x)| if (148..156).contains(&i) { 32 } else { *x as usize }).sum();
+            match (size, ck) { (Some(sz), Some(ck)) => { if ck != sum { problem = Some(format!("header checksum of entry {} is {} but the bytes sum to {}", names.len(), ck, sum)); }
+                    let n = String::from_utf8_lossy(&name).to_string(); if n == "metadata.json" { md_len = sz; } names.push(n);
+                    let padded = (sz + 511) / 512 * 512; if pos + 512 + padded > a.len() { problem = Some("entry runs past the end of the archive".into()); break; }
+                    if a[pos + 512 + sz..pos + 512 + padded].iter().any(|x| *x != 0) { problem = Some("entry padding is not zero".into()); }
+                    pos += 512 + padded; }
+                _ => { problem = Some(format!("entry {}: size or checksum field is not octal", names.len())); } }
+        }
+        if problem.is_none() { if a.len() < pos + 1024 || a[pos..].iter().any(|x| *x != 0) { problem = Some("the entries are not followed by zero blocks only (at least two)".into()); } else if a.len() != pos + 1024 { problem = Some(format!("{} bytes after the last entry, expected the two-block end-of-archive marker", a.len() - pos)); } }
+        let mut exp: Vec<&str> = vec!["peppi.json", "metadata.json", "start.json", "start.raw"]; if r.end.is_some() { exp.push("end.json"); exp.push("end.raw"); } if r.gecko.is_some() { exp.push("gecko_codes.raw"); } if !r.frames.is_empty() { exp.push("frames.arrow"); }
+        if problem.is_none() && names != exp { problem = Some(format!("entries {:?} != {:?}", names, exp)); }
+        if &a[..10.min(a.len())] != b"peppi.json" { problem = Some("file signature `peppi.json` is not at offset 0".into()); }
+        if let Some(p) = &problem { c.fail("C18", format!("written .slpp is not the documented tar layout: {}", p)); }
+        c.impl_out = format!("ok same n={} first=peppi.json sig=true", exp.len());
+        c.tags.push(format!("mdjson%512={}", if md_len % 512 == 0 { "0" } else { "n" })); c.tags.push(format!("entries{}", exp.len()));
+        ctx.push(c);
+    }
+}
 
 fn pread(rng: &mut Rng, ctx: &mut Ctx) {
     let go = GenOpts { max_frames: 4, newer: false, force: None };
